@@ -1,37 +1,33 @@
 import VaxisModel.Model.InputQuery
 
 /-!
-# F303 — colour query answers keep only the low byte of each channel
+# F303 — (repaired in round 4) colour query answers kept only the low byte of each channel
 
 `RGBColor(uint8(r), uint8(g), uint8(b))` after `Sscanf("…rgb:%x/%x/%x")`: for a reply with 16 bits
-per channel that does not repeat its byte, and for 1- or 3-digit channels, the colour returned is
+per channel that does not repeat its byte, and for 1- or 3-digit channels, the colour returned was
 not the colour the reply reports (XParseColor: `h`, `hh`, `hhh`, `hhhh` are scaled to the same
-range).  Recorded as a known finding (the source documents the cut as deliberate; a repair needs a
-parser of its own because `Sscanf` loses the digit count).
+range).  Repaired by `parseColorReply` (one helper: each channel parsed as 1–4 hexadecimal digits,
+scaled, high byte kept); `Props/C03Query.query_reply_exact` proves the statement below for the new
+parse.  This file keeps the refutation for the old parse (`colorOfReplySscanf`).
 -/
 namespace VaxisModel.Witness.F303
 open VaxisModel.Model.InputQuery VaxisModel.Model.Color
 
-/-- Full statement: whenever the three channels are well-formed XParseColor groups, the requester
-returns the colour they report. -/
-def query_reply_exact_full : Prop :=
-  ∀ (r g b : List Nat) (vr vg vb : Nat), xparseChannel r = some vr → xparseChannel g = some vg → xparseChannel b = some vb →
-    colorOfReply litFg (litFg ++ (r ++ 47 :: (g ++ 47 :: b))) = rgbColor vr vg vb
-
-/-- `10;rgb:1234/5678/9abc` reports #12569a; the requester returns #3478bc. -/
+/-- `10;rgb:1234/5678/9abc` reports #12569a; the old requester returned #3478bc. -/
 theorem low_byte_16bit :
-    colorOfReply litFg (ascii "10;rgb:1234/5678/9abc") = rgbColor 0x34 0x78 0xbc ∧
+    colorOfReplySscanf litFg (ascii "10;rgb:1234/5678/9abc") = rgbColor 0x34 0x78 0xbc ∧
     (xparseChannel (ascii "1234"), xparseChannel (ascii "5678"), xparseChannel (ascii "9abc")) = (some 0x12, some 0x56, some 0x9a) := by
   decide
 
-/-- `11;rgb:f/f/f` reports white; the requester returns #0f0f0f. -/
+/-- `11;rgb:f/f/f` reports white; the old requester returned #0f0f0f. -/
 theorem low_byte_1digit :
-    colorOfReply litBg (ascii "11;rgb:f/f/f") = rgbColor 0x0f 0x0f 0x0f ∧ xparseChannel (ascii "f") = some 0xff := by
+    colorOfReplySscanf litBg (ascii "11;rgb:f/f/f") = rgbColor 0x0f 0x0f 0x0f ∧ xparseChannel (ascii "f") = some 0xff := by
   decide
 
-theorem query_reply_exact_fails : ¬ query_reply_exact_full := by
+/-- The full statement was false of the code before the repair. -/
+theorem query_reply_exact_failed_before_repair : ¬ ExactFor colorOfReplySscanf := by
   intro h
-  have := h (ascii "1234") (ascii "5678") (ascii "9abc") 0x12 0x56 0x9a (by decide) (by decide) (by decide)
+  have := h litFg (ascii "1234") (ascii "5678") (ascii "9abc") 0x12 0x56 0x9a (by decide) (by decide) (by decide)
   revert this
   decide
 
